@@ -1,0 +1,105 @@
+//go:build verif
+
+package jmespath
+
+import (
+	"crypto/sha256"
+	"encoding/hex"
+	"fmt"
+	"reflect"
+	"sort"
+	"strings"
+)
+
+// VerifASTFingerprint returns a deep, map-order-independent digest of the
+// compiled expression (node types, scalar fields and literal payloads) and the
+// sorted list of node type names it contains. It only reads the expression.
+// Used by the runtime monitors under /verif to observe that evaluation never
+// modifies a compiled expression.
+func VerifASTFingerprint(e *Expression) (digest string, nodeTypes []string) {
+	types := map[string]struct{}{}
+	var b strings.Builder
+	verifWalk(&b, reflect.ValueOf(e.node), types, 0)
+	sum := sha256.Sum256([]byte(b.String()))
+	for t := range types {
+		nodeTypes = append(nodeTypes, t)
+	}
+	sort.Strings(nodeTypes)
+	return hex.EncodeToString(sum[:]), nodeTypes
+}
+
+func verifWalk(b *strings.Builder, v reflect.Value, types map[string]struct{}, depth int) {
+	if depth > 100000 {
+		b.WriteString("<deep>")
+		return
+	}
+	if !v.IsValid() {
+		b.WriteString("<invalid>")
+		return
+	}
+	switch v.Kind() {
+	case reflect.Interface:
+		if v.IsNil() {
+			b.WriteString("nil")
+			return
+		}
+		verifWalk(b, v.Elem(), types, depth+1)
+	case reflect.Pointer:
+		if v.IsNil() {
+			b.WriteString("nil")
+			return
+		}
+		verifWalk(b, v.Elem(), types, depth+1)
+	case reflect.Struct:
+		t := v.Type()
+		if strings.HasSuffix(t.PkgPath(), "internal/parser") {
+			types[t.Name()] = struct{}{}
+		}
+		b.WriteString(t.String())
+		b.WriteByte('{')
+		for i := 0; i < v.NumField(); i++ {
+			b.WriteString(t.Field(i).Name)
+			b.WriteByte(':')
+			verifWalk(b, v.Field(i), types, depth+1)
+			b.WriteByte(',')
+		}
+		b.WriteByte('}')
+	case reflect.Slice, reflect.Array:
+		if v.Kind() == reflect.Slice && v.IsNil() {
+			b.WriteString("nilslice")
+			return
+		}
+		fmt.Fprintf(b, "[%d|", v.Len())
+		for i := 0; i < v.Len(); i++ {
+			verifWalk(b, v.Index(i), types, depth+1)
+			b.WriteByte(',')
+		}
+		b.WriteByte(']')
+	case reflect.Map:
+		if v.IsNil() {
+			b.WriteString("nilmap")
+			return
+		}
+		keys := v.MapKeys()
+		sort.Slice(keys, func(i, j int) bool { return keys[i].String() < keys[j].String() })
+		fmt.Fprintf(b, "map[%d|", v.Len())
+		for _, k := range keys {
+			fmt.Fprintf(b, "%q:", k.String())
+			verifWalk(b, v.MapIndex(k), types, depth+1)
+			b.WriteByte(',')
+		}
+		b.WriteByte(']')
+	case reflect.String:
+		fmt.Fprintf(b, "%q", v.String())
+	case reflect.Bool:
+		fmt.Fprintf(b, "%v", v.Bool())
+	case reflect.Int, reflect.Int8, reflect.Int16, reflect.Int32, reflect.Int64:
+		fmt.Fprintf(b, "%d", v.Int())
+	case reflect.Uint, reflect.Uint8, reflect.Uint16, reflect.Uint32, reflect.Uint64:
+		fmt.Fprintf(b, "%d", v.Uint())
+	case reflect.Float32, reflect.Float64:
+		fmt.Fprintf(b, "%v", v.Float())
+	default:
+		fmt.Fprintf(b, "<%s>", v.Kind())
+	}
+}
